@@ -594,6 +594,11 @@ func pairSig(n ast.Node, failKind func(ast.Node) string) string {
 		}
 		pair := &ast.Statements{Statements: []ast.Node{a, b}}
 		if k := failKind(pair); k != "" {
+			for _, st2 := range []ast.Node{a, b} {
+				if cm := operandComment(st2); cm != "" {
+					return k + "|comment-operand:" + cm + "|stmtpair"
+				}
+			}
 			if e := edgeDesc(a, false); strings.HasSuffix(e, "comment") {
 				if _, top := a.(*ast.Comment); !top {
 					return k + "|comment-operand:" + e + "|stmt-end"
